@@ -601,7 +601,7 @@ def check_slots(ck, R1):
 def merge_call_role(seqs, e, at):
     """'cache': the memory cache's answer for the input list (one slot per element, None on a miss)."""
     if isinstance(e, ast.Call) and A.call_attr(e) == "get_mementos" and len(e.args) == 1 and not e.keywords \
-            and A.norm(A.call_recv(e)) == "self._memory_cache" and seqs.role(e.args[0], at) == "input":
+            and A.call_recv(e) is not None and seqs.fa.xnorm(A.call_recv(e), at) == "self._memory_cache" and seqs.role(e.args[0], at) == "input":
         return "cache"
     return None
 
@@ -613,7 +613,7 @@ def _check_merge(ck, R1):
     # roles: RESG = the returned list; the store answer = what the metadata source answered for the list of misses;
     # 'cache' = the per-position cache answers; the cursor is the counter indexing the store answer
     RESG = result_name(gm)
-    qcalls = [c for c in gm.calls("get_mementos") if A.norm(A.call_recv(c)) == "self._metadata_source" and gm.nodes(c)]
+    qcalls = [c for c in gm.calls("get_mementos") if gm.nodes(c) and A.call_recv(c) is not None and gm.xnorm(A.call_recv(c), gm.nodes(c)[0]) == "self._metadata_source"]
     gm.some(qcalls, "metadata-source get_mementos call")
 
     def is_store_answer(e, at):
@@ -792,7 +792,10 @@ def _first_exception_ok(cb, run):
             lp = ds[0].stmt
             if isinstance(lp.target, ast.Name) and cb.inside(r, lp) and _is_run_result(cb, run, lp.iter, cb.nodes(lp)[0]) \
                     and extras == {frozenset({RFE, ("isinstance(%s, Exception)" % r.exc.id, True)})}:
-                return True
+                # and the scan is not cut short: an iteration ends in this raise or goes on to the next element
+                hs = heads_of(cb, lp)
+                if cb.cfg.exit not in cb.cfg.reach(body_starts(cb, hs), removed=set(hs) | set(cb.nodes(r))):
+                    return True
         # (b) `x = next((y for y in <answer> if isinstance(y, Exception)), None)`, raised when it is not None
         lv = origins(cb, r.exc, at)
         if len(lv) == 1 and isinstance(lv[0][0], ast.Call) and A.call_attr(lv[0][0]) == "next" and len(lv[0][0].args) == 2 \
